@@ -323,7 +323,10 @@ impl World {
         answers: Option<Arc<BTreeMap<Id, (u64, u64)>>>,
         answers_inc: usize,
     ) -> Result<Option<Arc<Msg>>, Violation> {
-        let bytes = real.serialize_to_vec();
+        let bytes = match crate::common::guarded(|| real.serialize_to_vec()) {
+            Ok(b) => b,
+            Err(pm) => return Err(self.viol("C08", "C08.serialize_panic", format!("serializing a message produced by n{p} panicked: {pm}"))),
+        };
         let (msg, info, consumed) = match codec::decode(&bytes) {
             Ok(x) => x,
             Err(e) => {
@@ -389,6 +392,33 @@ impl World {
                 }
                 Err(e) => {
                     return Err(self.viol("C08", "C08.indep_encode_rejected", format!("real decoder rejects independent encoding: {e}")))
+                }
+            }
+        }
+        // C08: the independently decoded digest is what the sender's state says (catches layout
+        // changes that are self-consistent between the real encoder and decoder)
+        if self.on("C08") {
+            if let Some(d) = msg.digest() {
+                let node = self.nodes[p].as_ref().unwrap();
+                let scheduled: HashSet<Id> = {
+                    let _g = self.rt.enter();
+                    node.chit.scheduled_for_deletion_nodes().map(Id::from_real).collect()
+                };
+                let want: Vec<(Id, codec::NodeDigest)> = node
+                    .chit
+                    .node_states()
+                    .iter()
+                    .map(|(rid, ns)| (Id::from_real(rid), codec::NodeDigest { heartbeat: u64::from(ns.heartbeat()), gc: ns.last_gc_version(), max: ns.max_version() }))
+                    .filter(|(id, _)| !scheduled.contains(id))
+                    .collect();
+                if d != &want {
+                    let show = |v: &Vec<(Id, codec::NodeDigest)>| v.iter().take(4).map(|(id, nd)| format!("{}:(hb{},gc{},mv{})", id.short(), nd.heartbeat, nd.gc, nd.max)).collect::<Vec<_>>().join(" ");
+                    return Err(self.viol("C08", "C08.digest_content", format!("digest on the wire, read by the independent decoder: [{}]; sender state: [{}]", show(d), show(&want))));
+                }
+            }
+            if let Msg::Syn { cluster, .. } = &msg {
+                if cluster != &self.cfg.cluster_ids[self.cfg.cluster_of[p]] {
+                    return Err(self.viol("C08", "C08.cluster_id", format!("SYN carries cluster id {cluster:?}")));
                 }
             }
         }
